@@ -80,6 +80,10 @@ func c05Model() porcupine.Model {
 				s.closed |= 1 << uint(i.sid)
 				s.cons[i.sid] = 0
 				return true, s
+			case "close":
+				s.closed |= 1 << uint(i.sid)
+				s.cons[i.sid] = 0
+				return true, s
 			case "get":
 				return int(s.reg[i.path]) == o.sid, s
 			case "attach":
@@ -112,8 +116,8 @@ func c05Model() porcupine.Model {
 
 var c05Paths = [2]string{"/live/a", "/cam/b1"}
 var c05Spellings = [2][]string{
-	{"/live/a", "/LIVE/A", "live/a", " /live/a ", "/live//a", "/live/./a", "/Live/x/../a"},
-	{"/cam/b1", "/CAM/B1", "cam/b1", "/cam/b1 ", "//cam/b1", "/cam/./b1"},
+	{"/live/a", "/LIVE/A", "live/a", " /live/a ", "/live//a", "/live/./a", "/Live/x/../a", "/live/a/.", "/live/a/x/..", "/./live/a", "live/A/y/z/../.."},
+	{"/cam/b1", "/CAM/B1", "cam/b1", "/cam/b1 ", "//cam/b1", "/cam/./b1", "/cam/b1/.", "/cam/b1/q/.."},
 }
 
 type c05Stream struct {
@@ -127,6 +131,8 @@ type c05Stream struct {
 	okAtt  []bool // the stream was still live when the attach returned
 	regd   bool
 	unregd bool
+	// closed through Stream.Close by someone other than its source; the source unregisters it afterwards
+	closedByOther bool
 }
 
 type c05Op struct {
@@ -171,8 +177,11 @@ func buildC05Media(tier string) sim.Scenario {
 					switch c := tp.Choose(10); {
 					case c <= 2:
 						op.kind = "regist"
-					case c <= 4:
+					case c <= 3:
 						op.kind = "unregist"
+						op.own = tp.Choose(3)
+					case c == 4:
+						op.kind = "close" // someone other than the source ends the stream (administrative delete, idle close); the source unregisters later
 						op.own = tp.Choose(3)
 					case c <= 6:
 						op.kind = "get"
@@ -228,7 +237,7 @@ func buildC05Media(tier string) sim.Scenario {
 				st.regd = true
 				record(client, c05In{kind: "regist", sid: sid, path: op.path}, c05Out{}, call, ret)
 				w.Logf("a%d regist s%d %q", client, sid, c05Spellings[op.path][op.spelling])
-			case "unregist", "attach", "stop":
+			case "unregist", "attach", "stop", "close":
 				mu.Lock()
 				if len(own[client]) == 0 {
 					mu.Unlock()
@@ -245,6 +254,13 @@ func buildC05Media(tier string) sim.Scenario {
 					st.unregd = true
 					record(client, c05In{kind: "unregist", sid: sid, path: st.path}, c05Out{}, call, ret)
 					w.Logf("a%d unregist s%d", client, sid)
+				case "close":
+					call := w.Seq()
+					st.s.Close()
+					ret := w.Seq()
+					st.closedByOther = true
+					record(client, c05In{kind: "close", sid: sid, path: st.path}, c05Out{}, call, ret)
+					w.Logf("a%d close s%d", client, sid)
 				case "attach":
 					rec := &recConsumer{w: w, name: fmt.Sprintf("c%d.%d", sid, len(st.recs))}
 					typ := media.RTPPacket
@@ -368,6 +384,17 @@ func buildC05Media(tier string) sim.Scenario {
 			w.Y("main.quiesce")
 			observe()
 		}
+		// the source of a stream that somebody else closed notices (its next write fails) and unregisters it
+		for sid, st := range streams {
+			if st.closedByOther && !st.unregd && st.regd {
+				call := w.Seq()
+				media.Unregist(st.s)
+				ret := w.Seq()
+				st.unregd = true
+				record(nAct, c05In{kind: "unregist", sid: sid, path: st.path}, c05Out{}, call, ret)
+			}
+		}
+		observe()
 		// which streams were replaced while they had consumers (closing deferred to the idle-close job)?
 		for sid, st := range streams {
 			if st.regd && !st.unregd && media.Get(c05Paths[st.path]) != st.s && st.s.VerifStatus() == media.StreamOK {
